@@ -406,6 +406,9 @@ pub struct RecordEvent {
 pub struct Recorder {
     pub records: Vec<RecordEvent>,
     pub flush_calls: u64,
+    /// (chain, event sequence number) of every ChainStorage::flush / finalize call
+    pub flush_events: Vec<(u64, u64)>,
+    pub finalize_events: Vec<(u64, u64)>,
     pub faults_fired: Vec<String>,
     pub finalized_chains: Vec<u64>,
     pub trace_finalized: bool,
@@ -740,6 +743,8 @@ impl ChainStorage for RecChain {
     fn finalize(self) -> Result<Self::Finalized> {
         let mut rec = self.rec.lock().unwrap();
         rec.finalized_chains.push(self.chain);
+        let seq = nuts_rs_verif_rt::clock::next_event();
+        rec.finalize_events.push((self.chain, seq));
         if self.faults.chain_finalize_err.contains(&self.chain) {
             rec.faults_fired.push(format!("chain_finalize_err@{}", self.chain));
             return Err(anyhow!("simulated chain finalize failure chain {}", self.chain));
@@ -776,6 +781,8 @@ impl ChainStorage for RecChain {
         let mut rec = self.rec.lock().unwrap();
         let k = rec.flush_calls;
         rec.flush_calls += 1;
+        let seq = nuts_rs_verif_rt::clock::next_event();
+        rec.flush_events.push((self.chain, seq));
         if self.faults.flush_err_call == Some(k) {
             rec.faults_fired.push(format!("flush_err@{k}"));
             return Err(anyhow!("simulated flush failure at call {k}"));
